@@ -108,11 +108,13 @@ def run_job(job):
             if hit is not None:
                 out["known_hits"][hit] = out["known_hits"].get(hit, 0) + 1
                 continue
-            if key in seen_keys:
+            if key in seen_keys or len(seen_keys) >= job.get("max_keys", 6):
                 continue
             seen_keys.add(key)
             cands = getattr(mod, "candidates", shrink.pipeline_candidates)
-            small, execs = shrink.shrink(scn, key, mod.execute, cands, max_execs=job.get("shrink_execs", 300), max_seconds=job.get("shrink_seconds", 40))
+            # full minimisation effort for the first two distinct violations of this worker, a short one for the rest
+            secs = job.get("shrink_seconds", 40) if len(seen_keys) <= 2 else min(8, job.get("shrink_seconds", 40))
+            small, execs = shrink.shrink(scn, key, mod.execute, cands, max_execs=job.get("shrink_execs", 300), max_seconds=secs)
             out["shrink_execs"] += execs
             out["violations"].append({"violation": v, "scenario": small, "original": {"kind": kind, "index": idx}, "shrink_execs": execs})
     out["executed"] = executed
